@@ -32,8 +32,13 @@ def factory(ns, **kw):
             it = Interp(eng, ovr)
             fs = repo.setup_fs(it, tp)
             root = Frame(it, factory, {}, None)
+            # a second repodata file signed afterwards in the same process (one artifact, free name and build number)
+            t = tp['t']
+            nameB = t.str('B.name', 3)
+            docB = t.sdict('B.doc', [('packages', t.sdict('B.pk', [(nameB, {'build_number': t.int('B.bn')})], optional=False))], optional=False)
+            fs.files['other.json'] = canon_of(it, docB)
             out = run_call(it, S.sign_all_in_repodata, [repo.FNAME, tp['key']])
-            mk = lambda mm: repo.mk_case(eng, tp, mm)
+            mk = lambda mm: dict(repo.mk_case(eng, tp, mm), docB=to_wire(conc(mm, docB)))
             obs, structural, reach = [], [], []
             doc = tp['doc']
             if is_ret(out):
@@ -115,6 +120,21 @@ def factory(ns, **kw):
                     obs.append(oblige(eng, 'signing an already signed file again succeeds', True, mk))
                 else:
                     obs.append(oblige(eng, 'signing again changes nothing', z3.Not(bytes_eq(it, first, second)), mk))
+                # ---- another file signed afterwards carries exactly its own artifacts
+                out3 = run_call(it, S.sign_all_in_repodata, ['other.json', tp['key']])
+                curB = fs.files.get('other.json')
+                if not is_ret(out3) or not (isinstance(curB, SBytes) and curB.kind == 'canon'):
+                    obs.append(oblige(eng, 'a second repodata file is signed in the same process', True, mk))
+                else:
+                    secB = [v for q, v in lookup(curB.snapshot, 'signatures') if eng.fork(q)]
+                    if len(secB) != 1 or not isinstance(secB[0], (dict, SDict)):
+                        structural.append('the second signed document has exactly one signatures section')
+                    else:
+                        nB = z3.Sum([z3.If(zb(p), 1, 0) for p, k, v in dict_slots(secB[0])] + [z3.IntVal(0)])
+                        hasB = contains(it, root, secB[0], nameB)
+                        hasB = hasB.e if isinstance(hasB, SBool) else z3.BoolVal(bool(hasB))
+                        obs.append(oblige(eng, "a file signed later in the same process lists exactly its own artifacts (nothing carried over from the file signed before)", z3.Not(z3.And(nB == 1, hasB)), mk))
+                        reach.append('second file')
             else:
                 reach.append('fails:' + out[1])
                 # well-formed input and key must be signed
@@ -192,6 +212,13 @@ def concrete(case):
                     oc2 = CC.outcome_of(S.sign_all_in_repodata, p, case['key'])
                     if oc2['kind'] != 'ret' or open(p, 'rb').read() != raw:
                         probs.append('signing again changed the file')
+                if case.get('docB') is not None:
+                    docB = from_wire(case['docB'])
+                    with CC.temp_files({'other.json': C.canonserialize(docB)}) as pb:
+                        oc3 = CC.outcome_of(S.sign_all_in_repodata, pb['other.json'], case['key'])
+                        secB = json.loads(open(pb['other.json'], 'rb').read()).get('signatures') if oc3['kind'] == 'ret' else None
+                        if oc3['kind'] != 'ret' or not isinstance(secB, dict) or set(secB) != set(docB['packages']):
+                            probs.append(f'a second file signed in the same process lists {sorted(secB) if isinstance(secB, dict) else oc3.get("cls")!r}, its artifacts are {sorted(docB["packages"])}')
         else:
             import json
             try:
@@ -214,10 +241,10 @@ def judge(case, obs):
 
 def units(tier):
     q = tier == 'quick'
-    return [Unit('sign_all_in_repodata', factory('rp', A=1 if q else 2, B=1, wrong_kinds=True, meta_kinds='conda' if q else True), expect=('signed', 'client verifies', 'fails:ValueError'), max_witnesses=150)]
+    return [Unit('sign_all_in_repodata', factory('rp', A=1 if q else 2, B=1, wrong_kinds=True, meta_kinds='conda' if q else True, num_kinds=True), expect=('signed', 'client verifies', 'second file', 'fails:ValueError'), max_witnesses=150)]
 
 
-BOUNDS = dict(repodata='packages with <= 1 (quick) / 2 (thorough) artifacts and packages.conda with <= 1 artifact, free names of <= 3 characters (distinct across sections), each metadata a JSON object with a free integer field, or a bare boolean / integer / string / null / array; either section present, absent, a list or null; optional stale signatures section with one entry under a free name whose key and signature strings are free (so it may name a listed artifact and the signer own key); optional extra top-level field; file content canonical JSON of that document, non-JSON bytes, or a missing file',
+BOUNDS = dict(repodata='packages with <= 1 (quick) / 2 (thorough) artifacts and packages.conda with <= 1 artifact, free names of <= 3 characters (distinct across sections), each metadata a JSON object with a free integer-or-boolean field, or a bare boolean / integer / string / null / array; either section present, absent, a list or null; optional stale signatures section with one entry under a free name whose key and signature strings are free (so it may name a listed artifact and the signer own key); optional extra top-level field; file content canonical JSON of that document, non-JSON bytes, or a missing file; then a second file with one artifact (free name <= 3 characters) signed in the same process',
               key='free string <= 66 characters')
 OUTSIDE = 'more artifacts per section; artifact names occurring in both sections (excluded by the statement); non-canonical but valid JSON input files (equal after json.load under A3)'
 ASSUMPTIONS = ['A3 for the file round trip (json.load of canonical bytes gives the value back)', 'Sign / Pub axioms as in C09; replays use the real ed25519 implementation and real files']
